@@ -340,9 +340,8 @@ def _smt2_body(path):
 
 
 def bounds_objects(fe):
-    """The dependency graph the bounds are computed from and the observed iteration order of the one
-    order-exposed set (number_instr_needed: set(dependent_instr_ids).difference(analyzed_instr_ids)),
-    rebuilt with the same operations in the same process."""
+    """The dependency graph the bounds are computed from and the iteration order of the memory-only predecessors
+    (number_instr_needed: sorted(set(dependent_instr_ids).difference(analyzed_instr_ids)))."""
     from smt_encoding.instructions.instruction_dependencies import generate_dependency_graph_minimum
     instrs = fe._uninterpreted_instructions
     s2id = {i.output_stack: i.id for i in instrs if i.output_stack is not None}
@@ -353,7 +352,8 @@ def bounds_objects(fe):
         for e in i.input_stack:
             if e in s2id:
                 analyzed.add(s2id[e])
-        mo[i.id] = list(set(dg[i.id]).difference(analyzed))
+        # number_instr_needed traverses this set in sorted order (since fix 2b1d7c75 in /repo)
+        mo[i.id] = sorted(set(dg[i.id]).difference(analyzed))
     return {"dep_graph": {k: list(v) for k, v in dg.items()}, "mem_only_order": mo}
 
 
